@@ -333,53 +333,63 @@ def rule_acr122(report, prog):
 
 
 def rule_rcs380(report, prog):
+    """R4: Frame.__init__ is folded by the checker both ways: for a payload it must build 00 00 FF FF FF | LEN (LE16) | LCS | payload |
+    DCS | 00 with both checksums right (payload lengths 0..299, 511, 512, 1000), and given such a frame (or the ack / error frame)
+    it must classify it and hand back exactly the payload."""
+    from ..q import fold_lenient
     f = prog.func(RCS + '.Frame.__init__')
-    els = [x for x in walk_no_nested(f.node) if isinstance(x, ast.If) and 'data[0:3]' in norm(x.test)]
-    if len(els) != 1:
-        raise AnalysisError('C14-R4: Frame.__init__ shape changed')
-    build = els[0].orelse
     bad = []
     n_eval = 0
+
+    def fold(data):
+        env = {f.params[1] if len(f.params) > 1 else 'data': bytearray(data)}
+
+        def sync(st, e):
+            if 'self._type' in e:
+                e['self.type'] = e['self._type']
+            if 'self._data' in e:
+                e['self.data'] = e['self._data']
+        fold_lenient(f.node.body, env, visit=sync)
+        return env
     for n in list(range(0, 300)) + [511, 512, 1000]:
-        data = bytes((i * 5 + n) & 0xFF for i in range(n))
-        env = {'data': bytearray(data)}
-        frame = None
-        why = None
-        try:
-            for st in build:
-                if isinstance(st, ast.Assign) and norm(st.targets[0]) == 'frame':
-                    frame = bytearray(const(st.value, dict(env, frame=frame)))
-                elif isinstance(st, ast.AugAssign) and norm(st.target) == 'frame':
-                    frame += bytearray(const(st.value, dict(env, frame=frame)))
-        except (ValueError, struct.error, OverflowError) as e:
-            why = 'construction raises %s: %s' % (type(e).__name__, e)
+        data = bytes(((i * 5 + n) & 0xFF) | 1 for i in range(n))
+        env = fold(data)
         n_eval += 1
-        fr = bytes(frame or b'')
-        if why:
-            pass
-        elif fr[0:5] != b'\x00\x00\xff\xff\xff':
-            why = 'preamble/extended marker'
-        elif struct.unpack('<H', fr[5:7])[0] != n:
-            why = 'length field'
-        elif (fr[5] + fr[6] + fr[7]) & 0xFF:
-            why = 'length checksum'
-        elif fr[8:8 + n] != data:
-            why = 'payload'
-        elif (sum(fr[8:8 + n]) + fr[8 + n]) & 0xFF:
-            why = 'data checksum'
-        elif fr[9 + n:] != b'\x00':
-            why = 'postamble'
+        fr = env.get('self._frame')
+        why = None
+        if not isinstance(fr, (bytes, bytearray)):
+            why = 'cannot fold the frame construction'
+        else:
+            fr = bytes(fr)
+            if fr[0:5] != b'\x00\x00\xff\xff\xff':
+                why = 'preamble/extended marker'
+            elif len(fr) != n + 10:
+                why = 'frame is %d octets long, expected %d' % (len(fr), n + 10)
+            elif struct.unpack('<H', fr[5:7])[0] != n:
+                why = 'length field'
+            elif (fr[5] + fr[6] + fr[7]) & 0xFF:
+                why = 'length checksum'
+            elif fr[8:8 + n] != data:
+                why = 'payload'
+            elif (sum(fr[8:8 + n]) + fr[8 + n]) & 0xFF:
+                why = 'data checksum'
+            elif fr[9 + n:] != b'\x00':
+                why = 'postamble'
         if why:
             bad.append((n, why))
-    report.check(not bad, 'C14-R4', key(f.qname, 'frame valid for every payload length'), f.loc(),
+            if why.startswith('cannot'):
+                break
+            continue
+        if n in (0, 1, 2, 7, 255, 256, 299, 1000):
+            back = fold(fr)
+            if back.get('self._type') != 'data' or back.get('self._data') is None or bytes(back.get('self._data')) != data:
+                bad.append((n, 'parsing the frame gives type %r and %r octets of data' % (back.get('self._type'), len(back.get('self._data') or b''))))
+    for raw, typ in ((b'\x00\x00\xff\x00\xff\x00', 'ack'), (b'\x00\x00\xff\xff\xff', 'err')):
+        back = fold(raw)
+        if back.get('self._type') != typ:
+            bad.append((len(raw), '%s frame classified as %r' % (typ, back.get('self._type'))))
+    report.check(not bad, 'C14-R4', key(f.qname, 'frame valid for every payload length, parsed back to the payload'), f.loc(),
                  'RC-S380 frame malformed, e.g. (len, reason) %s' % bad[:3], detail='%d frames evaluated' % n_eval)
-    # parser offsets agree with the builder
-    okk = bool(find(f.node, "length = struct.unpack('<H', bytes(frame[5:7]))[0]")) and bool(find(f.node, 'self._data = frame[8:8 + length]'))
-    report.check(okk, 'C14-R4', key(f.qname, 'parser reads LEN at 5..6 and data at 8'), f.loc(), 'RC-S380 frame parser offsets changed')
-    consts_ = [try_const(c) for c in ast.walk(f.node) if isinstance(c, ast.Call) and norm(c.func) == 'bytearray' and c.args
-               and isinstance(c.args[0], ast.Constant)]
-    report.check(bytearray(b'\x00\x00\xff\x00\xff\x00') in consts_ and bytearray(b'\x00\x00\xff\xff\xff') in consts_, 'C14-R4',
-                 key(f.qname, 'ack / error frame constants'), f.loc(), 'ack/err frame constants changed')
 
 
 def _crc16_ref(data, init):
